@@ -32,6 +32,9 @@ REQS = {
     # iterate differently although they are equal)
     # a distribution that takes longer than twice the API request timeout (the clock advances 11 s once)
     "slow": [(100, (1,)), (200, (1,)), (300, (1,))],
+    # wired up by the public PowerWrapper (its own request channel and receiver); requests may also be issued two at a time,
+    # back to back in one event-loop turn
+    "wrap": [(100, (1,)), (200, (2,)), (300, (1,)), (400, (2,))],
     "ord": [(100, (8, 16)), (200, (16, 8)), (300, (8, 16)), (400, (16, 8))],
     "rep2": [(100, (1,)), (200, (1,)), (100, (1,)), (200, (1,)), (100, (1,))],
     "q": [(100, (1,)), (200, (1,)), (300, (2,)), (400, (1,))],
@@ -45,6 +48,21 @@ def _ordered_set(ids):
     for i in ids:  # insertion order is part of the plan
         s.add(i)
     return s
+
+
+def _maybe_microgrid(on):
+    """A fake microgrid with one battery (the PowerWrapper only starts the distributor when the graph has batteries)."""
+    import contextlib
+
+    if not on:
+        return contextlib.nullcontext()
+    from frequenz.client.microgrid import Component, Connection, InverterType
+
+    from .. import fakes
+
+    comps = {Component(1, ComponentCategory.GRID), Component(2, ComponentCategory.METER),
+             Component(8, ComponentCategory.INVERTER, InverterType.BATTERY), Component(9, ComponentCategory.BATTERY)}
+    return fakes.fake_microgrid(comps, {Connection(1, 2), Connection(2, 8), Connection(8, 9)})
 
 
 class ProbeManager:
@@ -109,18 +127,28 @@ def make_scenario(cfg: str, instant: bool):
         ProbeManager.chooser = ch
         ProbeManager.instant_modes = instant
         try:
-            with virtual_loop() as loop:
-                req = Broadcast(name="req")
-                res = Broadcast(name="res")
-                st = Broadcast(name="st")
-                actor = pd.PowerDistributingActor(
-                    req.new_receiver(),
-                    res.new_sender(),
-                    st.new_sender(),
-                    api_power_request_timeout=timedelta(seconds=5),
-                    component_category=ComponentCategory.BATTERY,
-                )
-                actor.start()
+            with virtual_loop() as loop, _maybe_microgrid(cfg == "wrap"):
+                if cfg == "wrap":
+                    from frequenz.sdk._internal._channels import ChannelRegistry
+                    from frequenz.sdk.microgrid._power_wrapper import PowerWrapper
+
+                    wrapper = PowerWrapper(ChannelRegistry(name="verif"), api_power_request_timeout=timedelta(seconds=5),
+                                           component_category=ComponentCategory.BATTERY)
+                    wrapper._start_power_distributing_actor()
+                    actor = wrapper._power_distributing_actor
+                    req = wrapper._power_distribution_requests_channel
+                else:
+                    req = Broadcast(name="req")
+                    res = Broadcast(name="res")
+                    st = Broadcast(name="st")
+                    actor = pd.PowerDistributingActor(
+                        req.new_receiver(),
+                        res.new_sender(),
+                        st.new_sender(),
+                        api_power_request_timeout=timedelta(seconds=5),
+                        component_category=ComponentCategory.BATTERY,
+                    )
+                    actor.start()
                 loop.settle()
                 m = ProbeManager.current
                 sender = req.new_sender()
@@ -149,6 +177,8 @@ def make_scenario(cfg: str, instant: bool):
                         ev.append(("advance", 11.0))
                     if sent < len(reqs):
                         ev.append(("req", sent))
+                    if cfg == "wrap" and sent + 1 < len(reqs):
+                        ev.append(("burst", sent))  # requests `sent` and `sent + 1` in one event-loop turn
                     for j, c in enumerate(m.calls):
                         if c["state"] == "running" and c["fut"] is not None:
                             ev.append(("ok", j))
@@ -161,6 +191,18 @@ def make_scenario(cfg: str, instant: bool):
                     if e[0] == "advance":
                         advanced[0] = True
                         loop.advance(e[1])
+                        return
+                    if e[0] == "burst":
+                        async def two(a=objs[e[1]], b=objs[e[1] + 1]):
+                            await sender.send(a)
+                            await sender.send(b)
+
+                        for j in (e[1], e[1] + 1):
+                            if frozenset(reqs[j][1]) in m.active:
+                                coalesced = True
+                            sent_epoch[float(j + 1)] = m.epoch
+                        loop.create_task(two())
+                        sent += 2
                         return
                     if e[0] == "req":
                         p, ids = reqs[e[1]]
@@ -276,9 +318,9 @@ def run(tier: str, seed: int, workers: int):
 
     acc = Acc()
     plans = (
-        [("q", False, 2), ("q", True, 1), ("q2", False, 1), ("rep", False, 1), ("ovl", False, 1), ("ord", False, 1), ("slow", False, 1)]
+        [("q", False, 2), ("q", True, 1), ("q2", False, 1), ("rep", False, 1), ("ovl", False, 1), ("ord", False, 1), ("slow", False, 1), ("wrap", False, 1)]
         if tier == "quick"
-        else [("t", False, 2), ("q", True, 2), ("q2", True, 1), ("t", True, 1), ("rep", True, 1), ("rep2", False, 1), ("ovl", True, 1), ("ord", False, 2), ("slow", False, 2)]
+        else [("t", False, 2), ("q", True, 2), ("q2", True, 1), ("rep", True, 1), ("rep2", False, 1), ("ovl", True, 1), ("ord", False, 2), ("slow", False, 2), ("wrap", False, 2)]
     )
     bounds = {}
     for cfg, instant, bound in plans:
